@@ -150,3 +150,232 @@ Theorem C08_spurious_at_most_once :
 Proof. exact spurious_at_most_once. Qed.
 Print Assumptions C08_spurious_at_most_once.
 
+
+Require Import LV.Base LV.VV LV.VVFacts LV.Path LV.PathSpec LV.PathTerm LV.PathDistinct LV.PathApi LV.Prog LV.Objects LV.Exec LV.Atomic LV.Ops LV.Check LV.NotifyFacts LV.ParkFacts.
+
+(* thread::park / unpark over whole interleavings (ParkFacts.v; the token is a field of its own since fix 91a3e2b) *)
+(* a park token survives every micro-step of every thread except the owner's own park: blocking on / being woken by a lock, a channel, a join, a notify neither consumes nor loses it (defect D11) *)
+Theorem C08_token_persists :
+  forall (b : nat) (e : exec) (me : nat) (m : micro) (e' : exec) (t : thread),
+       get_thread e b = Some t ->
+       t_token t = true ->
+       (me = b -> m <> MPark) ->
+       exec_micro e me m = MOk e' ->
+       exists t' : thread, get_thread e' b = Some t' /\ t_token t' = true.
+Proof. exact token_persists. Qed.
+Print Assumptions C08_token_persists.
+
+(* EXACT effect of unpark: a parked target becomes Runnable, any other live target keeps its state and gets the token, a terminated one is left alone; the target acquires the unparker's clock; nothing else changes *)
+Theorem C08_unpark_effect :
+  forall (e : exec) (a bd b : nat) (t : thread) (e' : exec),
+       body_tid e bd = Some b ->
+       get_thread e b = Some t ->
+       exec_micro e a (MUnpark bd) = MOk e' ->
+       exists t' : thread,
+         get_thread e' b = Some t' /\
+         (if is_parked t
+          then t_state t' = Runnable /\ t_token t' = t_token t
+          else
+           if is_terminated t
+           then t_state t' = Terminated /\ t_token t' = t_token t
+           else t_state t' = t_state t /\ t_token t' = true) /\
+         t_caus t' = (if b =? a then t_caus t else vv_join (t_caus t) (caus_of e a)) /\
+         vle (caus_of e a) (caus_of e' b) /\
+         same_rest t t' /\
+         (forall j : nat, j <> b -> get_thread e' j = get_thread e j) /\ same_frame e e'.
+Proof. exact unpark_effect. Qed.
+Print Assumptions C08_unpark_effect.
+
+(* park with a token consumes it and does not block *)
+Theorem C08_park_effect_token :
+  forall (e : exec) (me : nat) (t : thread),
+       get_thread e me = Some t ->
+       t_token t = true ->
+       exec_micro e me MPark = MOk (upd_thread e me (fun t0 : thread => th_set_token t0 false)).
+Proof. exact park_effect_token. Qed.
+Print Assumptions C08_park_effect_token.
+
+(* park without a token blocks and hands the processor over *)
+Theorem C08_park_blocks :
+  forall (e : exec) (me : nat) (t : thread) (e' : exec),
+       get_thread e me = Some t ->
+       t_token t = false ->
+       exec_micro e me MPark = MOk e' ->
+       parked me e' /\ (is_traversed (e_path e) = true -> e_active e' <> Some me).
+Proof. exact park_blocks. Qed.
+Print Assumptions C08_park_blocks.
+
+(* GLOBAL: after an unpark, whatever happens in between, the target's next park does not block (or it was parked and is Runnable now) *)
+Theorem C08_no_lost_unpark :
+  forall (e : exec) (a bd b : nat) (t : thread) (e1 : exec),
+       body_tid e bd = Some b ->
+       get_thread e b = Some t ->
+       exec_micro e a (MUnpark bd) = MOk e1 ->
+       is_parked t = true /\
+       (exists t1 : thread,
+          get_thread e1 b = Some t1 /\ t_state t1 = Runnable /\ t_token t1 = t_token t) \/
+       is_terminated t = true \/
+       is_parked t = false /\
+       is_terminated t = false /\
+       (forall e2 : exec,
+        tsteps (not_own_park b) e1 e2 ->
+        exists t2 : thread,
+          get_thread e2 b = Some t2 /\
+          t_token t2 = true /\
+          exec_micro e2 b MPark = MOk (upd_thread e2 b (fun t0 : thread => th_set_token t0 false))).
+Proof. exact no_lost_unpark. Qed.
+Print Assumptions C08_no_lost_unpark.
+
+(* a parked thread is resumed only by an unpark of it or by a condvar notify that pops it: not by lock releases, sends, notify posts or the scheduler (defect D5) *)
+Theorem C08_parked_stays_parked :
+  forall (b : nat) (e : exec) (me : nat) (m : micro) (e' : exec) (t : thread),
+       get_thread e b = Some t ->
+       is_parked t = true ->
+       t_token t = false ->
+       me <> b ->
+       ~ In b (unpark_targets e m) ->
+       exec_micro e me m = MOk e' ->
+       exists t' : thread, get_thread e' b = Some t' /\ is_parked t' = true /\ t_token t' = false.
+Proof. exact parked_stays_parked. Qed.
+Print Assumptions C08_parked_stays_parked.
+
+
+Require Import LV.Base LV.VV LV.VVFacts LV.Path LV.PathSpec LV.PathTerm LV.PathDistinct LV.PathApi LV.Prog LV.Objects LV.Exec LV.Atomic LV.Ops LV.Check LV.Ref LV.Outcome LV.Witness LV.NotifyFacts LV.ParkFacts LV.CondvarFacts.
+
+(* Condvar over whole interleavings (CondvarFacts.v) *)
+(* the waiter queue changes only by a registration at the back (wait), a pop at the front (notify_one) or being emptied (notify_all) *)
+Theorem C08_cv_queue_step_shape :
+  forall (c : nat) (e : exec) (me : nat) (m : micro) (e' : exec) (s : condvar_state),
+       SyncMono.track_ok e ->
+       get_cv e c = Some s ->
+       exec_micro e me m = MOk e' ->
+       exists s' : condvar_state,
+         get_cv e' c = Some s' /\
+         (cv_waiters s' = cv_waiters s \/
+          (exists mx : nat, m = MCvWait c mx /\ cv_waiters s' = cv_waiters s ++ [me]) \/
+          m = MCvNotify c false /\ (exists w : nat, cv_waiters s = w :: cv_waiters s') \/
+          m = MCvNotify c true /\ cv_waiters s' = []).
+Proof. exact cv_queue_step_shape. Qed.
+Print Assumptions C08_cv_queue_step_shape.
+
+(* a registered waiter stays registered until a notify pops it *)
+Theorem C08_reg_persists :
+  forall (b c : nat) (e : exec) (me : nat) (m : micro) (e' : exec),
+       SyncMono.track_ok e ->
+       reg b c e ->
+       (forall all : bool, m = MCvNotify c all -> ~ In b (unpark_targets e m)) ->
+       exec_micro e me m = MOk e' -> reg b c e'.
+Proof. exact reg_persists. Qed.
+Print Assumptions C08_reg_persists.
+
+(* notify_one pops exactly the front waiter and unparks it with the notifier's clock; all other threads and objects are untouched *)
+Theorem C08_notify_one_wakes_front :
+  forall (e : exec) (a c : nat) (s : condvar_state) (w : nat) (rest : list nat) (e' : exec),
+       get_cv e c = Some s ->
+       cv_waiters s = w :: rest ->
+       exec_micro e a (MCvNotify c false) = MOk e' ->
+       (exists s' : condvar_state,
+          get_cv e' c = Some s' /\ cv_waiters s' = rest /\ cv_last s' = cv_last s) /\
+       (forall t : thread,
+        get_thread e w = Some t ->
+        exists t' : thread,
+          get_thread e' w = Some t' /\
+          unpark_result t t' /\
+          t_caus t' = (if w =? a then t_caus t else vv_join (t_caus t) (caus_of e a)) /\
+          vle (caus_of e a) (caus_of e' w)) /\
+       (forall j : nat, j <> w -> get_thread e' j = get_thread e j) /\
+       (forall i : nat, i <> c -> nth_error (e_objects e') i = nth_error (e_objects e) i).
+Proof. exact notify_one_wakes_front. Qed.
+Print Assumptions C08_notify_one_wakes_front.
+
+(* on an empty queue notify_one does nothing: the notification is not stored (std's contract) *)
+Theorem C08_notify_one_empty_noop :
+  forall (e : exec) (a c : nat) (s : condvar_state) (e' : exec),
+       get_cv e c = Some s ->
+       cv_waiters s = [] ->
+       exec_micro e a (MCvNotify c false) = MOk e' ->
+       e' = log_op e a RUnit /\ e_objects e' = e_objects e /\ e_threads e' = e_threads e.
+Proof. exact notify_one_empty_noop. Qed.
+Print Assumptions C08_notify_one_empty_noop.
+
+(* notify_all wakes every registered waiter *)
+Theorem C08_notify_all_wakes_all :
+  forall (e : exec) (a c : nat) (s : condvar_state) (e' : exec),
+       get_cv e c = Some s ->
+       exec_micro e a (MCvNotify c true) = MOk e' ->
+       (exists s' : condvar_state,
+          get_cv e' c = Some s' /\ cv_waiters s' = [] /\ cv_last s' = cv_last s) /\
+       (forall (w : nat) (t : thread),
+        In w (cv_waiters s) ->
+        get_thread e w = Some t ->
+        exists t' : thread,
+          get_thread e' w = Some t' /\ woken t t' /\ (w <> a -> vle (caus_of e a) (caus_of e' w))) /\
+       (forall j : nat, ~ In j (cv_waiters s) -> get_thread e' j = get_thread e j) /\
+       (forall i : nat, i <> c -> nth_error (e_objects e') i = nth_error (e_objects e) i).
+Proof. exact notify_all_wakes_all. Qed.
+Print Assumptions C08_notify_all_wakes_all.
+
+(* a waiter parked in wait stays parked and registered under every step that neither notifies a queue that pops it nor unparks it *)
+Theorem C08_cv_wait_returns_only_after_notify :
+  forall (b c : nat) (e : exec) (me : nat) (m : micro),
+       SyncMono.track_ok e ->
+       parked b e ->
+       reg b c e ->
+       me <> b ->
+       ~ In b (unpark_targets e m) ->
+       parked b (ExecFacts.res_exec (exec_micro e me m)) /\
+       reg b c (ExecFacts.res_exec (exec_micro e me m)).
+Proof. exact cv_wait_returns_only_after_notify. Qed.
+Print Assumptions C08_cv_wait_returns_only_after_notify.
+
+(* a notify that pops a waiter that has registered but not yet parked is not lost: its park returns at once *)
+Theorem C08_cv_no_lost_wakeup :
+  forall (e : exec) (a c : nat) (all : bool) (b : nat) (t : thread) (e1 : exec),
+       In b (unpark_targets e (MCvNotify c all)) ->
+       get_thread e b = Some t ->
+       is_parked t = false ->
+       is_terminated t = false ->
+       exec_micro e a (MCvNotify c all) = MOk e1 ->
+       forall e2 : exec,
+       tsteps (not_own_park b) e1 e2 ->
+       exists t2 : thread,
+         get_thread e2 b = Some t2 /\
+         t_token t2 = true /\
+         exec_micro e2 b MPark = MOk (upd_thread e2 b (fun t0 : thread => th_set_token t0 false)).
+Proof. exact cv_no_lost_wakeup. Qed.
+Print Assumptions C08_cv_no_lost_wakeup.
+
+(* the step that ends the wait runs on a free mutex, leaves the waiter as its owner and acquires the mutex's view *)
+Theorem C08_cv_waiter_reacquires :
+  forall (e : exec) (me m : nat) (e' : exec),
+       exec_micro e me (MLockPost m LMReacquire) = MOk e' ->
+       exists s : mutex_state,
+         get_mutex e m = Some s /\
+         mx_lock s = None /\
+         (exists s' : mutex_state,
+            get_mutex e' m = Some s' /\ mx_lock s' = Some me /\ mx_sync s' = mx_sync s) /\
+         (me < length (e_threads e) -> vle (mx_sync s) (caus_of e' me)).
+Proof. exact cv_waiter_reacquires. Qed.
+Print Assumptions C08_cv_waiter_reacquires.
+
+(* the notifier's prior writes happen-before the woken thread's continuation *)
+Theorem C08_cv_wakeup_hb :
+  forall (e : exec) (a c : nat) (all : bool) (w : nat) (e1 e2 : exec),
+       In w (unpark_targets e (MCvNotify c all)) ->
+       w <> a ->
+       w < length (e_threads e) ->
+       exec_micro e a (MCvNotify c all) = MOk e1 ->
+       tsteps (fun (_ : exec) (_ : nat) (_ : micro) => True) e1 e2 ->
+       vle (caus_of e a) (caus_of e2 w).
+Proof. exact cv_wakeup_hb. Qed.
+Print Assumptions C08_cv_wakeup_hb.
+
+(* observed (computed): Condvar::wait parks through the thread's park token, so a stray Thread::unpark ends a wait nobody notified (a spurious wake-up std permits) and leaves a stale queue entry *)
+Theorem C08_unpark_satisfies_condvar_wait :
+  ref_finished (ref_outcomes false FUEL p_unpark_cv) = [] /\
+       ref_can_deadlock (ref_outcomes false FUEL p_unpark_cv) = true /\
+       fin_of p_unpark_cv = RunOk /\
+       length (recs_of p_unpark_cv) = 1 /\ run_reports_deadlock (fin_of p_unpark_cv) = false.
+Proof. exact unpark_satisfies_condvar_wait. Qed.
+Print Assumptions C08_unpark_satisfies_condvar_wait.
+
